@@ -555,6 +555,27 @@ func SpecPred(p *core.Prog, r *core.Report) {
 	n := checkPredClauses(p, r, rule, clauses)
 	r.Count("spec_predicate_sites", n)
 	r.Floor("spec_predicate_sites", 18)
+	// arrays declare items at every depth: the schema walk of the rule descends into the items schema by calling
+	// itself where that schema is there (an array of arrays whose inner array has no items is reported)
+	if f := p.Func("(*SpecValidator).validateSchemaItems"); f != nil {
+		descends := false
+		core.EachInstr(f, func(i ssa.Instruction) {
+			c, ok := i.(*ssa.Call)
+			if !ok || core.StaticCallee(c) != f {
+				return
+			}
+			for _, cd := range core.CondsAt(c.Block()) {
+				if pth, has := core.Path(condOperand(cd)); has && strings.HasSuffix(pth, ".Items.Schema") && isNonNilCond(cd) {
+					descends = true
+				}
+			}
+		})
+		if descends {
+			r.OK(rule, "validateSchemaItems:descends", p.Pos(f.Pos()), "the array-requires-items walk calls itself on the items schema where there is one")
+		} else {
+			r.Bad(rule, "validateSchemaItems:descends", p.Pos(f.Pos()), "the array-requires-items walk no longer descends into the items schema: an array of arrays whose inner array declares no items passes")
+		}
+	}
 
 	// the path-template helpers: placeholders are recognised by the same constant expression, segment by segment
 	for _, h := range []struct{ fn, method string }{{"(*pathHelper).stripParametersInPath", "ReplaceAllString"}, {"(*pathHelper).extractPathParams", "FindAllStringSubmatch"}} {
